@@ -160,4 +160,51 @@ example : ((sRun (sStart 1 1) [.write [1, 2, 3], .ack 2 10, .write [4], .fin, .w
     (sRun (sStart 1 1) [.write [1, 2, 3], .ack 2 10, .write [4], .fin, .write [5]]).s.frames.length = 2 := by
   decide
 
+/-! ### the send loop's frame budget (`sender.framesToSend`)
+
+`Reliable.send` touches `r.sender.frames[i]` for every `i <` the budget (timeout branch) and queues at
+most that many frames (window-open branch); `sender.write` asks for the budget past `startIndex`. -/
+
+/-- the budget is never negative -/
+theorem C08_budget_nonneg (w u : Nat) (c : Int) (n : Nat) (rto : Bool) (st : Int) :
+    0 ≤ framesToSend w u c n rto st := by
+  unfold framesToSend; simp only []; split <;> omega
+
+/-- the budget never reaches past the retransmission buffer: indexing `frames[start + i]`, `i <` budget,
+is in range (for `start = 0` this is the loop of the timeout branch) -/
+theorem C08_budget_in_bounds (w u : Nat) (c : Int) (n : Nat) (rto : Bool) (st : Int) :
+    framesToSend w u c n rto st = 0 ∨ st + framesToSend w u c n rto st ≤ n := by
+  unfold framesToSend; simp only []
+  repeat' split
+  all_goals omega
+
+/-- window-open and write: frames in flight plus the budget stay within the window (unless the window
+is already exceeded, in which case nothing more is sent) -/
+theorem C08_budget_window (w u : Nat) (c : Int) (n : Nat) (st : Int) :
+    framesToSend w u c n false st = 0 ∨ (u : Int) + st + framesToSend w u c n false st ≤ w := by
+  unfold framesToSend; simp only [Bool.false_eq_true, if_false]
+  repeat' split
+  all_goals omega
+
+/-- a retransmission timeout always reaches the oldest unacknowledged frame: with a non-empty buffer and
+a window of at least one frame the budget is at least one (the completeness of C08 rests on this: an
+unacknowledged frame is retransmitted at every tick until it is acknowledged) -/
+theorem C08_budget_rto_progress (w u : Nat) (c : Int) (n : Nat) (hc : 0 ≤ c) (hn : 0 < n) (hw : 0 < w) :
+    1 ≤ framesToSend w u c n true 0 := by
+  unfold framesToSend; simp only [if_true]
+  repeat' split
+  all_goals omega
+
+/-- … and retransmits at most a window, growing by one frame per consecutive timeout -/
+theorem C08_budget_rto_bound (w u : Nat) (c : Int) (n : Nat) (hc : 0 ≤ c) :
+    framesToSend w u c n true 0 ≤ w ∧ framesToSend w u c n true 0 ≤ c + 1 ∧ framesToSend w u c n true 0 ≤ n := by
+  unfold framesToSend; simp only [if_true]
+  repeat' split
+  all_goals omega
+
+example : framesToSend 10 3 0 20 false 0 = 7 ∧ framesToSend 10 3 0 5 false 2 = 3 ∧ framesToSend 10 12 0 5 false 0 = 0 ∧
+    framesToSend 10 0 0 20 true 0 = 1 ∧ framesToSend 10 0 4 20 true 0 = 5 ∧ framesToSend 10 0 40 20 true 0 = 10 ∧
+    framesToSend 10 0 40 3 true 0 = 3 := by decide
+example : Generated.tubes_minWindowSize = 10 ∧ Generated.tubes_defaultWindowSize = 10 := by decide
+
 end Tubes
